@@ -125,6 +125,21 @@ class Repo(object):
                         seen.setdefault(n.name, set()).add(None)
                     else:
                         seen.setdefault(n.name, set()).add(ps)
+        self._all_signatures = {k: [list(x) for x in v if x is not None] for k, v in seen.items()}
+        # defaults: (callable name, parameter) -> default expressions seen
+        self._defaults = {}
+        for m in self.modules.values():
+            for n in ast.walk(m.tree):
+                if isinstance(n, ast.FunctionDef):
+                    a = n.args
+                    ps = a.posonlyargs + a.args
+                    for prm, d in zip(ps[len(ps) - len(a.defaults):], a.defaults):
+                        key = n.name
+                        parent = getattr(n, '_parent', None)
+                        if n.name == '__init__' and isinstance(parent, ast.ClassDef):
+                            key = parent.name
+                        self._defaults.setdefault((key, prm.arg), set()).add(ast.dump(d))
+                        self._defaults.setdefault((key, prm.arg, 'node'), d)
         return {k: list(next(iter(v))) for k, v in seen.items() if len(v) == 1 and None not in v}
 
     def nfunc(self, qual):
